@@ -587,6 +587,93 @@ pub fn interrupted_histories(which: Which, tier: &str) -> (Acc, SpaceReport) {
     (acc, rep)
 }
 
+/// Self-play lines and deep complete searches (the histories of `auto`, of analysis sessions and of a GUI that lets the
+/// engine play both sides): from each root, for each depth plan, the engine searches, its move is played into the
+/// record, and the next search runs on the same table - up to 8 plies. After every search the table is audited (tree
+/// walk to depth 3) and every position whose cached move is not legal there is searched at depths 1 and 2. Depths go
+/// up to 5 (6 thorough) where the tree is small enough: forward pruning, killer/hash-move interplay and mate scores
+/// stored by deep searches need remaining depth >= 3 two plies below the root.
+pub fn selfplay_histories(which: Which, tier: &str) -> (Acc, SpaceReport) {
+    let q = tier == "quick";
+    let mut roots: Vec<String> = family_roots().iter().map(|(_, r)| r.to_string()).collect();
+    for r in ["4k3/8/8/8/8/8/R7/1R4K1 w - - 0 1", "7k/8/8/8/8/8/2Q5/K7 w - - 0 1", "8/8/8/4k3/8/8/8/R3K2R w KQ - 0 1", "4k3/pp3ppp/8/8/8/8/PPP3PP/4K3 w - - 0 1", "8/5k2/8/8/8/8/1Pp5/K7 b - - 0 1", "r3k2r/8/8/8/8/8/8/R3K2R w KQkq - 0 1", "6k1/5ppp/8/8/8/8/5PPP/R5K1 w - - 0 1", "8/8/8/8/5k2/8/5K2/7q b - - 0 1"] {
+        roots.push(r.to_string());
+        if let Ok(p) = parse_fen_strict(r) {
+            roots.push(p.pos.mirror().fen6(false));
+        }
+    }
+    // a hand-written root that is not a sane position is a configuration error of the harness, never a verdict
+    for r in &roots {
+        if !parse_fen_strict(r).map(|p| p.pos.normalised().sane()).unwrap_or(false) {
+            let mut a = Acc::new();
+            a.errors.push(format!("self-play root {} is not a sane position (harness configuration error)", r));
+            return (a, SpaceReport { name: "self-play lines".into(), states: 0, exhaustive: false, note: String::new() });
+        }
+    }
+    let mut cases: Vec<(String, u8)> = vec![];
+    for r in &roots {
+        for d in 1..=(if q { 5 } else { 6 }) {
+            cases.push((r.clone(), d));
+        }
+    }
+    let t0 = std::time::Instant::now();
+    let acc = par_items(&cases, &|_, (root, d), acc| {
+        let mut spec = RootSpec::fen(root);
+        let mut table = new_table();
+        let poll_cap: u64 = if q { 40_000 } else { 2_000_000 };
+        for ply in 0..8 {
+            let Ok((game, pos)) = spec.build() else { return };
+            let legal = pos.legal_uci_sorted();
+            if legal.is_empty() {
+                return;
+            }
+            // size guard: a depth whose previous depth is already large is skipped for this root
+            if *d >= 4 {
+                let mut probe_t = new_table();
+                let pre = run_search(&game, &mut probe_t, &SearchCfg::depth(*d - 1));
+                if pre.polls > poll_cap {
+                    acc.count("self-play: (position, depth) pairs skipped because the tree is too large");
+                    return;
+                }
+            }
+            let b = Built { spec: spec.clone(), game: game.clone(), pos, legal };
+            let run = run_search(&game, &mut table, &SearchCfg::depth(*d));
+            acc.states += 1;
+            let w = format!("self-play from {} at depth {}: search #{} [{}]", root, d, ply + 1, spec.text());
+            let replay = json::obj(vec![("kind", json::s("e3-selfplay")), ("root", json::s(root.clone())), ("depth", json::i(*d)), ("ply", json::i(ply))]);
+            judge_with_replay(which, &b, *d, &run, &w, replay.clone(), acc);
+            let Ok(Some(best)) = &run.result else { return };
+            if !b.legal.contains(best) {
+                return;
+            }
+            // audit the table this search leaves behind
+            let mut bad = vec![];
+            let mut g = game.clone();
+            let mut budget: u32 = if q { 6_000 } else { 100_000 };
+            let b0 = budget;
+            audit_table(&mut g, &table, 3, &mut vec![], &mut budget, &mut bad);
+            acc.add("positions looked up by table audits", (b0 - budget) as u64);
+            for (path, cached) in bad.iter().take(4) {
+                acc.count("table entries whose cached move is not legal in their position (searched as roots)");
+                let mut h = spec.history.clone();
+                h.extend(path.iter().cloned());
+                let follow = RootSpec { fen: spec.fen.clone(), history: h };
+                let Ok((fg, fp)) = follow.build() else { continue };
+                let fb = Built { spec: follow.clone(), game: fg, legal: fp.legal_uci_sorted(), pos: fp };
+                for fd in [1u8, 2] {
+                    let mut t2 = table.clone();
+                    let r2 = run_search(&fb.game, &mut t2, &SearchCfg::depth(fd));
+                    let w2 = format!("{} ; [table holds {} for this position] S[{} ; depth {}]", w, cached, follow.text(), fd);
+                    judge_with_replay(which, &fb, fd, &r2, &w2, replay.clone(), acc);
+                }
+            }
+            spec.history.push(best.clone());
+        }
+    });
+    let rep = SpaceReport { name: format!("self-play lines: {} roots x depths 1..={}, up to 8 searches each on one table with the announced move played in between; table audit (depth 3) and probe searches after every search", roots.len(), if q { 5 } else { 6 }), states: acc.states, exhaustive: true, note: format!("[{:.1}s]", t0.elapsed().as_secs_f64()) };
+    (acc, rep)
+}
+
 /// `judge` with a caller-supplied replay artefact (the word is not a plain E3 word)
 fn judge_with_replay(which: Which, b: &Built, d: u8, run: &SearchRun, word: &str, replay: J, acc: &mut Acc) {
     let mut tmp = Acc::new();
@@ -631,6 +718,9 @@ pub fn run(prop: &str, tier: &str, seed: i64) -> Outcome {
         let (a, r) = interrupted_histories(which, tier);
         acc.merge(a);
         reports.push(r);
+        let (a, r) = selfplay_histories(which, tier);
+        acc.merge(a);
+        reports.push(r);
     }
     if which == Which::C06 {
         let (a, r) = crate::props::c08::deep_histories(tier, "C06");
@@ -654,6 +744,9 @@ pub fn replay(prop: &str, j: &J) -> Result<Acc, String> {
         "C18" => Which::C18,
         _ => Which::C08,
     };
+    if j.get("kind").and_then(|x| x.as_str()) == Some("e3-selfplay") {
+        return Ok(selfplay_histories(which, "quick").0);
+    }
     if j.get("kind").and_then(|x| x.as_str()) == Some("e3-interrupted") {
         let g = |k: &str| j.get(k).and_then(|x| x.as_str()).unwrap_or("").to_string();
         let n = |k: &str| j.get(k).and_then(|x| x.as_i()).unwrap_or(0);
